@@ -28,7 +28,7 @@ LEVEL_NOTE = "Trusted: the strict RTF reader (self-tested on hand-written fragme
 
 A4 = (8.27, 11.69)
 GROUPINGS = ["none", "page_by1", "page_by2", "page_by_newpage_column", "page_by_newpage_firstrow", "subline_by", "subline_by+page_by",
-             "group_by", "group_by+page_by", "group_by_noncontiguous", "group_by2", "group_by2_nulls", "page_by_nulls"]
+             "group_by", "group_by+page_by", "group_by_noncontiguous", "group_by2", "group_by2_nulls", "page_by_nulls", "group_by+page_by_recurring", "group_by+subline_by_recurring"]
 
 TABLE_DIMS = {
     "n": [3, 0, 1, 2, 5, 12],
@@ -156,6 +156,12 @@ def table_spec(c):
         spec["group_by"] = [half, third]
     elif g == "group_by2_nulls":  # contiguous keys whose inner level is null on runs of rows: must be accepted
         spec["group_by"] = [half, [None if (r * 4 // max(n, 1)) % 2 == 0 else r * 4 // max(n, 1) for r in range(n)]]
+    elif g == "group_by+page_by_recurring":  # page_by / subline_by values may recur (A, B, A); only group_by keys must be contiguous
+        spec["group_by"] = [half]
+        spec["page_by"] = [[r % 2 for r in range(n)]]
+    elif g == "group_by+subline_by_recurring":
+        spec["group_by"] = [half]
+        spec["subline_by"] = [[(r // 2) % 2 for r in range(n)]]
     elif g == "page_by_nulls":
         spec["page_by"] = [[None if r < (n + 1) // 2 else 1 for r in range(n)]]
     ngrp = sum(len(spec.get(k) or []) for k in ("page_by", "subline_by", "group_by"))
